@@ -26,6 +26,12 @@ extern int verif_failed;
             printf("REPLAY-FAILED %s\n", tagmsg);                              \
         }                                                                      \
     } while (0)
+/* CBMC-only predicates are vacuous natively (they only constrain symbolic states) */
+#define __CPROVER_same_object(a, b) 1
+#define __CPROVER_is_fresh(p, n) 1
+#define __CPROVER_rw_ok(p, n) 1
+#define __CPROVER_r_ok(p, n) 1
+#define __CPROVER_w_ok(p, n) 1
 #define VASSUME(c)                                                             \
     do {                                                                       \
         if (!(c)) {                                                            \
